@@ -784,6 +784,8 @@ class Calls(Interp):
     # ---------------------------------------------------------------- builtins
     def builtin_call(self, name, args, kwargs, node, star=None, dstar=None):
         m = getattr(self, "bi_" + name.replace(".", "_"), None)
+        if m is None and ("lib:" + name) in self.reg.contracts:
+            return self.apply_contract(self.reg.contracts["lib:" + name], None, args, kwargs, node, star, dstar, mname=name)
         if m is None:
             self.unsupported(node, "builtin %s" % name)
         if star is not None or dstar is not None:
